@@ -6,6 +6,11 @@ props = [json.loads(l) for l in open(os.path.join(V, "properties.jsonl"))]
 ids = [p["id"] for p in props]
 
 CLAIMS = {
+ "C08": dict(
+   technique="Lean 4 theorems over a hand-written model of prompt-storage mode resolution, the storage-mode filter, entropy-token masking and a note-writer state machine; extractor-regenerated table of note writers, filter shape and constants; in-process model-vs-code correspondence; end-to-end blob-walk oracles on every note-writing path",
+   text="Machine-checked proof that (1) under any effective mode other than `notes`, no note written by any note-writing function of the current source contains a message — an invariant over all histories whose side condition (every writer that reads the working log filters before serialising) is re-decided on the table extracted at each run; (2) redact_secrets_in_text never slices out of range or off a char boundary and its output contains no 15–90 character secret-character run the classifier flags (output runs characterised exactly); (3) in notes mode every user/assistant/thinking/plan text in every note is that redaction; exclusion overrides inclusion and `notes` requires an explicit setting. Tied to the Rust code by differential testing of effective_prompt_storage, extract_tokens, redact_secret, redact_secrets_in_text, redact_secrets_from_prompts, and by running 13 note-writing paths on the real binary in the storage modes with a scan of every blob reachable from refs/notes/ai.",
+   note="Trusted: Lean kernel (propext, Quot.sound); the extractor (call-site inventory, working-log taint by unique function name); harness and e2e generators; glob matching and the floating-point classifier is_random are opaque model inputs. Out of scope: mode changes mid-history, notes imported by sync, refs/notes/ai-stash (local only), the CAS upload. Known finding: tool_use inputs are not redacted in notes mode. Fixed in /repo: amend wrote unfiltered transcripts (399031a5).",
+   ref="DESIGN.md §8 C08"),
  "C01": dict(
    technique="Lean 4 theorem (diff-parser exactness for all contents) over a hand-written model + in-process correspondence + end-to-end ghost-provenance oracle on the built binary",
    text="Machine-checked proof that the commit-time `git diff -U0` parser returns exactly the lines a commit adds for every rendered diff (any content, including lines that look like diff headers; hunk-header parsing for all headings/counts), tied to the Rust parser by differential testing; the pipeline as a whole (checkpoints → working log → split → note → blame) is checked end to end against a ghost-provenance oracle on generated histories (files with unusual names, CRLF, no final newline, diff-syntax-like lines; 1-3 sessions + human; insert/delete/replace/intra-line/re-indent; rewrite-all-AI-lines) run on the binary built from /repo.",
